@@ -33,5 +33,11 @@ def c10_tasks(ctx):
     return [Task("(*memory.mbc3).Read", "(*memory.mbc3).Read", keep=keep), Task("(*memory.mbc3).Write", "(*memory.mbc3).Write", keep=keep)]
 
 
+def prepare_tasks(ctx, which=("memory.prepareROM", "memory.prepareRAM")):
+    """the page builders against their contracts: bank counts are the documented function of the header codes and the
+    ROM pages hold the image bytes in order"""
+    return [Task(f, f) for f in which]
+
+
 def dump_tasks(ctx):
     return [Task("(*memory.%s).DumpRAM" % k, "(*memory.%s).DumpRAM" % k) for k in ("none", "mbc1", "mbc2", "mbc3", "mbc5")]
